@@ -424,6 +424,33 @@ def r11_table_span_grows(rep, facts):
                   f'the value lies outside its table\'s span', loc)
 
 
+SPANNED_TYPES = ('toml_edit::key::Key', 'toml_edit::item::Item', 'toml_edit::value::Value', 'toml_edit::table::Table', 'toml_edit::inline_table::InlineTable',
+                 'toml_edit::array::Array', 'toml_edit::array_of_tables::ArrayOfTables')
+
+
+def r12_error_names_its_place(rep, facts):
+    R = rep.rule('C14/R12', 'an error is located at the item its message is about: in every `Error::custom(message, span)` of toml_edit::de whose message is formatted from an '
+                 'item of the document (a key, a value, a table), the span is taken from that same item — not from a sibling bound next to it', floor=5)
+    n = 0
+    for d, b in sorted(facts.bodies.items()):
+        if 'toml_edit::de::' not in d:
+            continue
+        for c in calls_in(b['body']):
+            cs = [strip_generics(x) for x in callee_all(c)]
+            if not (cs and cs[0].endswith('de::Error::custom') and len(c.get('args', [])) == 2):
+                continue
+            spanned = lambda node: {x['path'] for x in walk(node) if x.get('k') == 'path' and x.get('res') == 'Local' and any(t in (x.get('t') or '') for t in SPANNED_TYPES)}
+            about, where = spanned(c['args'][0]), spanned(c['args'][1])
+            if not about or not where:
+                continue
+            n += 1
+            nm = lambda s_: sorted(x.split('#')[0] for x in s_)
+            rep.check(R, f'{last_seg(strip_generics(d))}|{"+".join(nm(about))}#{n}', where <= about, f'message about {nm(about)}, located at {nm(where)}',
+                      f'`{d}`: the error message is formatted from {nm(about)} but its location is taken from {nm(where)}: the reported range is not the source text of the item the '
+                      f'message names', facts.loc(b, c))
+    rep.check(R, 'count', n >= 4, f'{n} located messages', f'only {n} Error::custom calls with a message about a document item found')
+
+
 def rules(rep, facts):
     feats = set(facts.crates.get('toml_edit', {}).get('features', []))
     if 'toml_edit' not in facts.crates or 'parse' not in feats:
@@ -441,6 +468,7 @@ def rules(rep, facts):
         r4_uniform(rep, facts)
         r4b_newtype_transparent(rep, facts)
         r4c_spanned_evaluated(rep, facts)
+        r12_error_names_its_place(rep, facts)
         from .rules_c15 import r1_span_attached
         r1_span_attached(rep, facts)
         rep.relabel('C15/R1', 'C14/R7', 'error locations delivered through serde are the innermost value\'s span: ')
